@@ -452,9 +452,10 @@ class Verdict:
         if extra:
             ev.update(extra)
         ev["coverage"]["known_findings_seen"] = {k: v[1] for k, v in self.known.items()}
-        os.makedirs(EVIDENCE, exist_ok=True)
-        with open(os.path.join(EVIDENCE, self.prop + ".json"), "w") as f:
-            json.dump(ev, f, indent=1)
+        if not os.environ.get("VERIF_NO_EVIDENCE"):          # set by ./check replay
+            os.makedirs(EVIDENCE, exist_ok=True)
+            with open(os.path.join(EVIDENCE, self.prop + ".json"), "w") as f:
+                json.dump(ev, f, indent=1)
         seen = set()
         for key, what, path in self.violations:
             if path in seen:
